@@ -159,10 +159,9 @@ class SynthDef(metaclass=MetaSynthDef):
                 self._callable_args = names[len(utl.as_list(prepend)):]
                 self._finish_build()
                 self._func = func
+            finally:
+                # Also on KeyboardInterrupt and other BaseException.
                 _libsc3.main._current_synthdef = None
-            except Exception:
-                _libsc3.main._current_synthdef = None
-                raise
 
     @property
     def name(self):
